@@ -78,6 +78,10 @@ uint64_t mv_hash(const MVal *m, uint64_t h = 0x9E3779B97F4A7C15ull);
 // Structural walk: compares the live tree n with the model m and (re)binds m->c.
 // Returns false and sets why on the first difference. Cycle-safe (bounded by the model).
 bool walk_check(const cJSON *n, MVal *m, bool as_root, std::string &why);
+// optional: tells whether an owned string/key pointer is a live block of the simulated allocator; the harness never reads
+// through a pointer that is not (it would be the harness touching released memory, not the library)
+extern bool (*mv_block_live)(const void *);
+extern bool mv_tolerate_dangling;   // memory-judging properties: skip the comparison and let the ledger / sanitizer decide later
 // Well-formedness of a library tree without a model (C01/C10/C16): chains end in
 // NULL, back links mirror forward links, first->prev == last. Bounded by budget.
 bool struct_wellformed(const cJSON *n, bool as_root, size_t &budget, size_t depth, std::string &why);
